@@ -434,6 +434,17 @@ where
     }
 }
 
+#[cfg(all(assets_manager_verif, feature = "hot-reloading"))]
+impl<S> AssetCache<S> {
+    /// Verification hook: number of event messages (one per `EventSender::send`
+    /// or non-empty `send_multiple`) that the hot-reloading thread has fully
+    /// handled, or `None` if this cache has no reloader.
+    #[doc(hidden)]
+    pub fn verif_events_handled(&self) -> Option<usize> {
+        self.reloader.as_ref().map(|r| r.verif_events_handled())
+    }
+}
+
 impl<S> Default for AssetCache<S>
 where
     S: Source + Default,
